@@ -21,6 +21,8 @@ def Fires (m : Mon) (p o : Obs) (e : Ev) : Clause → Prop
   | .c01Blocked n => o.done = true ∧ 1 ≤ n ∧ n ≤ m.ncalls ∧ finCall o.fins n = none ∧ o.callParked n = false
   | .c01Late n r => n ∈ m.startedLate ∧ finCall o.fins n = some r ∧ r ≠ .closed ∧ ¬ (r = .ctx ∧ n ∈ m.ctxd)
   | .c01RegAfterRx oc => m.rxSeen = true ∧ oc = o.oc ∧ o.oc ≠ []
+  | .c01StillRegistered n => ∃ r, FTok.call n r ∈ o.fins ∧ n ∈ o.oc
+  | .c01MarshalForeign n => FTok.call n .marshal ∈ o.fins ∧ n ∉ m.badCalls
   | .c02Twice r => ∃ q, m.reqs[r]? = some q ∧ (1 < q.okWrites ∨ 1 < q.p1count)
   | .c02NotifAnswered r => ∃ q, m.reqs[r]? = some q ∧ (q.isNotif = true ∨ q.isCancel = true) ∧ 0 < q.w1count
   | .c03BeforeSync j i => PTok.h j ∈ o.parked ∧ PTok.h j ∉ p.parked ∧ ∃ qj qi, m.reqs[j]? = some qj ∧
@@ -119,6 +121,24 @@ theorem chkCancelAsked_fires (h : chkCancelAsked m = some c) : Fires m p o e c :
   split at h
   · cases h; rename_i id rest hu; exact ⟨rest, hu⟩
   · cases h
+
+theorem chkStillRegistered_fires (h : chkStillRegistered o = some c) : Fires m p o e c := by
+  obtain ⟨a, ha, hf⟩ := List.exists_of_findSome?_eq_some h
+  cases a with
+  | unotif k r => simp at hf
+  | call n r =>
+    simp only at hf
+    split at hf
+    · cases hf; rename_i hc; exact ⟨r, ha, List.contains_iff_mem.mp hc⟩
+    · cases hf
+
+theorem chkMarshal_fires (h : chkMarshal m o = some c) : Fires m p o e c := by
+  obtain ⟨a, ha, hf⟩ := List.exists_of_findSome?_eq_some h
+  split at hf
+  · split at hf
+    · cases hf
+    · cases hf; rename_i hn; exact ⟨ha, by simpa using hn⟩
+  · cases hf
 
 theorem chkAnswer_fires (h : chkAnswer m = some c) : Fires m p o e c := by
   obtain ⟨q, r, hq, hf⟩ := zipIdx_findSome h
@@ -275,6 +295,10 @@ theorem chkAll_fires (h : chkAll m p o e = some c) : Fires m p o e c := by
   · exact chkLate_fires h
   rcases orElse_some h with h | h
   · exact chkRegAfterRx_fires h
+  rcases orElse_some h with h | h
+  · exact chkStillRegistered_fires h
+  rcases orElse_some h with h | h
+  · exact chkMarshal_fires h
   rcases orElse_some h with h | h
   · exact chkAnswer_fires h
   rcases orElse_some h with h | h
@@ -533,6 +557,34 @@ theorem sound_c01RegAfterRx (tr : Trace) (l : Label) (o : Obs) (oc : List Nat)
   have := hP tr.length (len_lt_snoc _ _) ⟨i, evAt_snoc_le hi, hi⟩
   rw [obsAt_snoc_len] at this
   exact h3 this
+
+/-- A call that has returned to its caller is no longer registered in the connection's table of
+outgoing calls (else the reader's exit or Close completes it a second time: "never completes twice"). -/
+def P_c01StillRegistered (tr : Trace) : Prop :=
+  ∀ k n r, FTok.call n r ∈ (obsAt tr k).fins → n ∉ (obsAt tr k).oc
+
+theorem sound_c01StillRegistered (tr : Trace) (l : Label) (o : Obs) (n : Nat)
+    (h : (monStepT (monAfter {} tr) l o).2 = some (.c01StillRegistered n)) :
+    ¬ P_c01StillRegistered (tr ++ [(l, o)]) := by
+  obtain ⟨m, _, r, h1, h2⟩ := fires_of_step h
+  intro hP
+  have := hP tr.length n r (by rw [obsAt_snoc_len]; exact h1)
+  rw [obsAt_snoc_len] at this
+  exact this h2
+
+/-- The marshalling error is the result only of a call whose parameters cannot be encoded (one started
+by an `ecallbad` event; calls are numbered by their start events). -/
+def P_c01MarshalOnlyBad (tr : Trace) : Prop :=
+  ∀ k, k < tr.length → ∀ n, FTok.call n .marshal ∈ (obsAt tr k).fins →
+    ∃ i, i ≤ k ∧ evAt tr i = some .ecallbad ∧ n = callNoAt tr i
+
+theorem sound_c01MarshalForeign (tr : Trace) (l : Label) (o : Obs) (n : Nat)
+    (h : (monStepT (monAfter {} tr) l o).2 = some (.c01MarshalForeign n)) :
+    ¬ P_c01MarshalOnlyBad (tr ++ [(l, o)]) := by
+  obtain ⟨m, hm, h1, h2⟩ := fires_of_step h
+  intro hP
+  obtain ⟨i, _, hi, hn⟩ := hP tr.length (len_lt_snoc _ _) n (by rw [obsAt_snoc_len]; exact h1)
+  exact h2 ((hm.bad n).mpr ⟨i, hi, hn⟩)
 
 /-! ## C02 — each request with an id receives exactly one response; notifications never receive one -/
 
@@ -824,12 +876,12 @@ example : P_c01Panic good01 := by
   rcases j with _|_|_|_|j <;> simp [obsAt, good01]
 example : P_c01Blocked good01 := by
   intro j hj hd n h1 hn
-  rcases j with _|_|_|_|j <;> simp [obsAt, good01, callNoAt, cnt, evOf] at hj hd hn ⊢ <;>
+  rcases j with _|_|_|_|j <;> simp [obsAt, good01, callNoAt, cnt, evOf, Ev.isCallStart] at hj hd hn ⊢ <;>
     (have : n = 1 ∨ n = 2 := by omega) <;> rcases this with rfl | rfl <;> simp [finCall, Obs.callParked, PTok.callNo] at hn ⊢
 example : P_c01Late good01 := by
   intro i hi he hd j hij hj r hr
   rcases i with _|_|_|_|i <;> simp [good01, evAt, evOf, before, obsAt] at hi he hd
-  rcases j with _|_|_|_|j <;> simp [good01, obsAt, callNoAt, cnt, evOf, finCall] at hij hj hr ⊢
+  rcases j with _|_|_|_|j <;> simp [good01, obsAt, callNoAt, cnt, evOf, finCall, Ev.isCallStart] at hij hj hr ⊢
   exact .inl hr.symm
 
 /-! ### C02, C04, C03 -/
